@@ -80,6 +80,20 @@ Record value := mkValue {
 Definition set_gen (v : value) (ts rep : Z) (own : option tape) (k : kind) : value :=
   mkValue (vid v) ts (vdmin v) (vdmax v) rep own k.
 
+(** * Switches for the two defects found (candidate patches under /verif/fixes)
+
+    The model follows the code as it is NOW ([false]).  Once a patch is in /repo
+    the corresponding switch becomes [true]; nothing else changes. *)
+Definition fix_C20_1 : bool := false.   (* DEFECT C20_1: width beyond int64 panics in Int63n *)
+Definition fix_C20_2 : bool := false.   (* DEFECT C20_2: timestamp addition wraps silently *)
+
+(** DEFECT C20_1: [if right-left+1 <= 0 { return error }] in front of every
+    Int63n whose argument is a configured width; absent today, so the draw
+    panics for such a width *)
+Definition guard_width {A} (w : Z) (k : rres A) : rres A :=
+  if fix_C20_1 && (wrap64 w <=? 0) then RErr else k.
+Arguments guard_width : simpl never.
+
 (** * Per-kind generators *)
 
 (** the shared shape of every *_List arm:
@@ -118,10 +132,11 @@ Definition update_int (v : Z) (d : ndist) (t : tape) : rres (Z * ndist) :=
           let left := if delta then dmn else mn in
           let right := if delta then dmx else mx in
           let base := if delta then v else 0 in
-          (* DEFECT C20_1: a width beyond int64 makes Int63n panic; with the
-             patch this becomes [if wrap64 (right - left + 1) <=? 0 then RErr else ...] *)
-          rbind (int63n (wrap64 (right - left + 1)) t) (fun r t' =>
-            RV (clampZ mn mx (wrap64 (base + wrap64 (r + left))), d) t')
+          (* DEFECT C20_1 (guard_width): a width beyond int64 makes Int63n panic
+             today; with the patch it is an error *)
+          guard_width (right - left + 1)
+          (rbind (int63n (wrap64 (right - left + 1)) t) (fun r t' =>
+            RV (clampZ mn mx (wrap64 (base + wrap64 (r + left))), d) t'))
   | NList opts rnd =>
       rbind (pick_list opts rnd t) (fun xo t' => RV (fst xo, NList (snd xo) rnd) t')
   | NNone => RV (v, d) t
@@ -140,11 +155,12 @@ Definition update_uint (v : Z) (d : ndist) (t : tape) : rres (Z * ndist) :=
           let left := if delta then dmn else wrap64 mn in
           let right := if delta then dmx else wrap64 mx in
           let base := if delta then v else 0 in
-          (* DEFECT C20_1: as in update_int *)
-          rbind (int63n (wrap64 (right - left + 1)) t) (fun r t' =>
+          (* DEFECT C20_1 (guard_width): as in update_int *)
+          guard_width (right - left + 1)
+          (rbind (int63n (wrap64 (right - left + 1)) t) (fun r t' =>
             let tmp := wrap64 (wrap64 base + wrap64 (r + left)) in
             let nv := if tmp <? 0 then mn else tmp in
-            RV (clampZ mn mx nv, d) t')
+            RV (clampZ mn mx nv, d) t'))
   | NList opts rnd =>
       rbind (pick_list opts rnd t) (fun xo t' => RV (fst xo, NList (snd xo) rnd) t')
   | NNone => RV (v, d) t
@@ -220,12 +236,14 @@ Definition update_ts (ts dmin dmax : Z) (t : tape) : rres Z :=
   if ts <? 0 then RErr
   else if (dmin >? dmax) || (dmin <? 0) then RErr
   else
-    (* DEFECT C20_1: delta_max - delta_min + 1 = 2^63 makes Int63n panic; with the
-       patch: [if wrap64 (dmax - dmin + 1) <=? 0 then RErr else ...] *)
-    rbind (int63n (wrap64 (dmax - dmin + 1)) t) (fun r t' =>
-      (* DEFECT C20_2: the sum wraps silently; with the patch:
-         [if wrap64 (ts + r + dmin) <? ts then RErr else RV (wrap64 (ts + r + dmin)) t'] *)
-      RV (wrap64 (ts + r + dmin)) t').
+    (* DEFECT C20_1 (guard_width): delta_max - delta_min + 1 = 2^63 makes Int63n
+       panic today; with the patch it is an error *)
+    guard_width (dmax - dmin + 1)
+    (rbind (int63n (wrap64 (dmax - dmin + 1)) t) (fun r t' =>
+      let nt := wrap64 (ts + r + dmin) in
+      (* DEFECT C20_2: the sum wraps silently today ([fix_C20_2 = false]); with the
+         patch [if nt < t { return error }] this branch returns RErr *)
+      if fix_C20_2 && (nt <? ts) then RErr else RV nt t')).
 
 (** nextValue.  [g] is the tape of the queue's generator; the result carries
     the new value ([None]: repeats exhausted, [v.v = nil]) and the new [g]. *)
